@@ -3,17 +3,23 @@
 Model (independent of chibicc, works on the ORIGINAL bytes of each file):
   * physical line of a token = 1 + number of LF bytes before its first byte (a CR LF pair contains exactly one LF, so both
     line-ending styles are covered; a lone CR is not a line terminator for this property -> such files are not judged);
+    nothing else about the bytes matters: not the size of the file, not universal character names or UTF-8 sequences before the token;
   * C11 5.1.1.2 phases 1-3 are replayed only as far as needed to know which bytes are inside comments, which physical
-    lines form one logical line (backslash-newline) and which logical lines are directives;
+    lines form one logical line (backslash-newline), which logical lines are directives and where preprocessing tokens start;
   * C11 6.10.4: after `#line N ["f"]` (or the GNU form `# N "f"`) the line FOLLOWING the directive has presumed number N and
     the presumed file name is f; the effect ends with the file;  6.10.4p2: the line number of a token counts the new-line
     characters read in phase 1 up to that token, i.e. spliced new-lines count;
-  * `__LINE__`/`__FILE__` written as a source token on physical line L: presumed line of L / presumed name there;
-    an object-like macro `VPL<j>` whose body holds the probe reports the line/file of the (single-line) invocation.
+  * `__LINE__`/`__FILE__` written as a source token on physical line L: presumed line of L / presumed name there, also inside the
+    arguments of a macro invocation;
+  * a small macro expander (object-like and function-like macros without # / ## / variadics, defined by #define lines of the files):
+    a token that comes from a replacement list has the position of the macro name token of its invocation, and if that name token
+    itself comes from a replacement list, of that one's invocation, and so on: `__LINE__` in the body of a macro reports the line
+    of the macro name of the outermost invocation that is written in a source file (gcc agrees; probes are judged only where it does).
 
-Probe spelling understood by model and observers:  vp<K>(<line>, <file>);
+Probe spelling understood by model and observers:  vp<K>(<line>, <file>);  the position a probe reports is that of the first token of
+its first argument (`__LINE__`, a macro for it, or the offending token of the diagnostics mode).
 """
-import os, re
+import bisect, os, re
 
 BOM = b"\xef\xbb\xbf"
 
@@ -26,124 +32,261 @@ def has_lone_cr(data):
     return re.search(rb"\r(?!\n)", data) is not None
 
 
+_p3 = re.compile(r"/\*|//|\"|'|\n")
+_dq = re.compile(r'(?:[^"\\\n]|\\.)*"')
+_sq = re.compile(r"(?:[^'\\\n]|\\.)*'")
+
+
+class Text:
+    """Phases 1-2 of one file: `text` is the file with the BOM dropped, CR LF read as LF and backslash-newline removed;
+    offset(i) is the offset in the ORIGINAL bytes of text[i] (piecewise linear: one piece per physical line)."""
+
+    def __init__(self, data):
+        self.data = data
+        pos = 3 if data.startswith(BOM) else 0
+        n = len(data)
+        parts, self.tidx, self.ooff = [], [], []
+        t = 0
+        while pos < n:
+            e = data.find(b"\n", pos)
+            if e < 0:
+                e, nxt, term = n, n, False
+            else:
+                nxt, term = e + 1, True
+            ce = e - 1 if term and e > pos and data[e - 1] == 0x0d else e
+            spliced = term and ce > pos and data[ce - 1] == 0x5c
+            if spliced:
+                ce -= 1
+            self.tidx.append(t); self.ooff.append(pos)
+            parts.append(data[pos:ce].decode("latin-1"))
+            t += ce - pos
+            if not spliced:
+                self.tidx.append(t); self.ooff.append(e)      # the line terminator (at EOF: one past the end)
+                parts.append("\n")
+                t += 1
+            pos = nxt
+        self.text = "".join(parts)
+        if self.text and not self.text.endswith("\n"):          # the last line ended with a backslash-newline
+            self.tidx.append(len(self.text)); self.ooff.append(n)
+            self.text += "\n"
+        self.lfs = [m.start() for m in re.finditer(rb"\n", data)]
+        m = re.search(rb"\\u[0-9a-fA-F]{4}|\\U[0-9a-fA-F]{8}", data)
+        self.first_ucn = m.start() if m else None
+
+    def offset(self, i):
+        k = bisect.bisect_right(self.tidx, i) - 1
+        return self.ooff[k] + (i - self.tidx[k])
+
+    def line(self, i):
+        """physical line (1-based) of text[i] = 1 + LF bytes before it in the original file"""
+        return 1 + bisect.bisect_left(self.lfs, self.offset(i))
+
+
 def logical_lines(data):
-    """Phases 1-3 light: returns a list of logical lines, each a list of (char, original offset); comments become one
-    space carrying the offset of their first byte; backslash-newline removed (CR LF counts as newline)."""
-    i = 3 if data.startswith(BOM) else 0
-    n = len(data)
-    # phase 1+2: characters with offsets, CRLF -> LF, splices removed
-    chars = []
-    while i < n:
-        c = data[i]
-        if c == 0x5c:  # backslash
-            if data[i + 1:i + 2] == b"\n":
-                i += 2; continue
-            if data[i + 1:i + 3] == b"\r\n":
-                i += 3; continue
-        if c == 0x0d and data[i + 1:i + 2] == b"\n":
-            chars.append(("\n", i)); i += 2; continue
-        chars.append((chr(c), i)); i += 1
-    if chars and chars[-1][0] != "\n":
-        chars.append(("\n", n))
-    # phase 3: comments and literals
-    out, cur = [], []
-    k, m = 0, len(chars)
-    while k < m:
-        c, off = chars[k]
-        nxt = chars[k + 1][0] if k + 1 < m else ""
-        if c == "/" and nxt == "*":
-            j = k + 2
-            while j + 1 < m and not (chars[j][0] == "*" and chars[j + 1][0] == "/"):
-                j += 1
-            cur.append((" ", off)); k = j + 2; continue
-        if c == "/" and nxt == "/":
-            j = k
-            while j < m and chars[j][0] != "\n":
-                j += 1
-            cur.append((" ", off)); k = j; continue
-        if c in "\"'":
-            j = k + 1
-            while j < m and chars[j][0] != c and chars[j][0] != "\n":
-                j += 2 if chars[j][0] == "\\" else 1
-            if j < m and chars[j][0] == c:        # a complete literal on this line: copied verbatim
-                cur.extend(chars[k:j + 1]); k = j + 1
-            else:                                  # stray quote: an ordinary character
-                cur.append((c, off)); k += 1
-            continue
-        if c == "\n":
-            out.append(cur); cur = []; k += 1; continue
-        cur.append((c, off)); k += 1
+    """Phases 1-3 light: returns (Text, [logical line]) where a logical line is (string, [index into Text.text of each
+    character]); a comment is one space carrying the index of its first character; new-lines inside comments and
+    backslash-newlines do not end a logical line."""
+    T = Text(data)
+    s = T.text
+    out = []
+    cur, idx = [], []
+
+    def emit(a, b):
+        if b > a:
+            cur.append(s[a:b]); idx.extend(range(a, b))
+    pos, n = 0, len(s)
+    while pos < n:
+        m = _p3.search(s, pos)
+        if not m:
+            emit(pos, n); break
+        emit(pos, m.start())
+        k = m.group()
+        if k == "\n":
+            out.append(("".join(cur), idx)); cur, idx = [], []
+            pos = m.end()
+        elif k == "/*":
+            j = s.find("*/", m.end())
+            cur.append(" "); idx.append(m.start())
+            pos = n if j < 0 else j + 2
+        elif k == "//":
+            j = s.find("\n", m.end())
+            cur.append(" "); idx.append(m.start())
+            pos = n if j < 0 else j
+        else:
+            q = (_dq if k == '"' else _sq).match(s, m.end())
+            if q:                                   # a complete literal on this line: copied verbatim
+                emit(m.start(), q.end()); pos = q.end()
+            else:                                   # stray quote: an ordinary character
+                emit(m.start(), m.end()); pos = m.end()
     if cur:
-        out.append(cur)
-    return out
+        out.append(("".join(cur), idx))
+    return T, out
 
 
-_probe = re.compile(r"\bvp(\d+)\s*\(")
-_tok = re.compile(r"\bvp(\d+)\s*\(|\b(VPL\d+)\b")
+_UCN = r"\\u[0-9a-fA-F]{4}|\\U[0-9a-fA-F]{8}"
+_pptok = re.compile(r"(?:u8|u|U|L)?\"(?:[^\"\\\n]|\\.)*\"|(?:u|U|L)?'(?:[^'\\\n]|\\.)+'"
+                    r"|(?:[A-Za-z_$\x80-\xff]|" + _UCN + r")(?:[A-Za-z0-9_$\x80-\xff]|" + _UCN + r")*"
+                    r"|\.?[0-9](?:[eEpP][+-]|[A-Za-z0-9_.])*|\S")
+_probe_name = re.compile(r"^vp(\d+)$")
 _line = re.compile(r"^\s*#\s*(?:line\s+)?(\d+)(?:\s+\"([^\"]*)\")?\s*(?:\d+\s*)*$")
 _incl = re.compile(r"^\s*#\s*include\s+\"([^\"]+)\"\s*$")
-_defobj = re.compile(r"^\s*#\s*define\s+(VPL\d+)\s+(.*)$")
+_define = re.compile(r"^\s*#\s*define\s+([A-Za-z_]\w*)(\(([^)]*)\))?(.*)$")
 _dir = re.compile(r"^\s*#")
 
 
-def scan(data, name):
-    """Events of one file in source order:
-       ("probe", pid, dict(file=name, phys=, pres=, presfile=, fphys=, fpres=, directive=bool, via=None|macro name))
-       ("include", header name, physical line)"""
-    ev = []
-    delta, presfile, directive = 0, name, False
-    objmacros = {}
-    for ll in logical_lines(data):
-        text = "".join(c for c, o in ll)
-        if not ll:
-            continue
-        first = phys_line(data, ll[0][1])
-        last = phys_line(data, ll[-1][1])
-        if _dir.match(text):
-            m = _line.match(text)
-            if m:
-                # the line following the directive (physical line last+1) is line N
-                delta = int(m.group(1)) - (last + 1)
-                if m.group(2) is not None:
-                    presfile = m.group(2)
-                directive = True
+class ModelError(ValueError):
+    pass
+
+
+class Pre:
+    """The part of translation phase 4 that positions depend on: #include "...", #line / # N "f", #define of object-like and
+    function-like macros without # / ## / __VA_ARGS__, and their expansion (arguments are fully expanded on their own; the
+    replacement is rescanned with the rest of the text; no macro refers to itself).
+    Position of a token written in a source file = its own; position of a token that comes from a replacement list = the position
+    of the macro name token of that invocation (recursively: of the outermost invocation written in a source file)."""
+
+    def __init__(self, files):
+        self.files = files
+        self.macros = {}
+        self.res = []
+
+    def run(self, main):
+        self.file(main, 0)
+        return self.res
+
+    def file(self, name, depth):
+        if depth > 8:
+            raise ModelError("include recursion")
+        data = self.files[name]
+        T, lls = logical_lines(data)
+        delta, presfile, directive = 0, name, False
+        pending = []
+        for text, idx in lls:
+            if not idx:
                 continue
-            m = _incl.match(text)
-            if m:
-                ev.append(("include", m.group(1), first))
+            if _dir.match(text):
+                self.flush(pending); pending = []
+                first, last = T.line(idx[0]), T.line(idx[-1])
+                m = _line.match(text)
+                if m:
+                    delta = int(m.group(1)) - (last + 1)      # the line following the directive is line N
+                    if m.group(2) is not None:
+                        presfile = m.group(2)
+                    directive = True
+                    continue
+                m = _incl.match(text)
+                if m:
+                    self.file(m.group(1), depth + 1)
+                    continue
+                m = _define.match(text)
+                if m:
+                    body = _pptok.findall(m.group(4))
+                    if "#" in body or "##" in body or "__VA_ARGS__" in body:
+                        raise ModelError("unmodelled replacement list")
+                    params = None
+                    if m.group(2) is not None:
+                        params = [x.strip() for x in m.group(3).split(",")] if m.group(3).strip() else []
+                    self.macros[m.group(1)] = (params, body)
                 continue
-            m = _defobj.match(text)
-            if m:
-                objmacros[m.group(1)] = [int(x) for x in _probe.findall(m.group(2))]
-            continue
-        for m in _tok.finditer(text):
-            p = phys_line(data, ll[m.start()][1])
-            info = dict(file=name, phys=p, pres=p + delta, presfile=presfile, fphys=first, fpres=first + delta,
-                        directive=directive, via=None)
-            if m.group(1) is not None:
-                ev.append(("probe", int(m.group(1)), info))
-            else:
-                for pid in objmacros.get(m.group(2), []):
-                    d = dict(info); d["via"] = m.group(2)
-                    ev.append(("probe", pid, d))
-    return ev
+            first = T.line(idx[0])
+            cache = {}
+            for m in _pptok.finditer(text):
+                off = T.offset(idx[m.start()])
+                p = 1 + bisect.bisect_left(T.lfs, off)
+                u = T.first_ucn is not None and T.first_ucn < off
+                info = cache.get((p, u))
+                if info is None:       # shared by the tokens of one physical line; never modified (users copy)
+                    info = cache[(p, u)] = dict(file=name, phys=p, pres=p + delta, presfile=presfile, fphys=first, fpres=first + delta,
+                                                directive=directive, via=None, ucn=u)
+                pending.append((m.group(), info))
+        self.flush(pending)
+
+    def expand(self, toks, depth=0):
+        if depth > 40:
+            raise ModelError("macro recursion")
+        out = []
+        stack = toks[::-1]
+        guard = 0
+        while stack:
+            guard += 1
+            if guard > 200000:
+                raise ModelError("runaway expansion")
+            t = stack.pop()
+            mac = self.macros.get(t[0])
+            if mac is None:
+                out.append(t); continue
+            params, body = mac
+            org = t[1]
+            if org["via"] is None:
+                org = dict(org); org["via"] = t[0]
+            if params is None:
+                stack.extend((x, org) for x in reversed(body))
+                continue
+            if not stack or stack[-1][0] != "(":
+                out.append(t); continue
+            stack.pop()
+            args, curarg, level = [], [], 0
+            while True:
+                if not stack:
+                    raise ModelError("unterminated invocation of " + t[0])
+                a = stack.pop()
+                if a[0] == "(":
+                    level += 1
+                elif a[0] == ")":
+                    if level == 0:
+                        break
+                    level -= 1
+                elif a[0] == "," and level == 0:
+                    args.append(curarg); curarg = []
+                    continue
+                curarg.append(a)
+            args.append(curarg)
+            if not params and args == [[]]:
+                args = []
+            if len(args) != len(params):
+                raise ModelError("arity of " + t[0])
+            eargs = [self.expand(a, depth + 1) for a in args]
+            rep = []
+            for x in body:
+                if x in params:
+                    rep.extend(eargs[params.index(x)])
+                else:
+                    rep.append((x, org))
+            stack.extend(reversed(rep))
+        return out
+
+    def flush(self, pending):
+        if not pending:
+            return
+        toks = self.expand(pending)
+        n = len(toks)
+        for i, (t, info) in enumerate(toks):
+            m = _probe_name.match(t)
+            if not m or i + 2 >= n or toks[i + 1][0] != "(":
+                continue
+            # the position a probe reports is that of the first token of its first argument (__LINE__, or the offending token)
+            arg = toks[i + 2][1]
+            d = dict(arg)
+            lo = hi = 0
+            if info["file"] == arg["file"] and info["via"] == arg["via"]:
+                lo = min(0, info["phys"] - arg["phys"])
+                for j in range(i + 2, n):
+                    if toks[j][0] == ";":
+                        e = toks[j][1]
+                        if e["file"] == arg["file"] and e["via"] == arg["via"]:
+                            hi = max(0, e["phys"] - arg["phys"])
+                        break
+            d["lo"], d["hi"] = lo, hi          # physical lines of the whole probe statement, relative to `phys`
+            self.res.append((int(m.group(1)), d))
 
 
 def expected(files, main="t.c"):
-    """files: {name: bytes} all in one directory.  Returns the probes in translation order:
-    [(pid, info)], following #include "..." recursively (each inclusion scans the header afresh: line 1, own name)."""
-    res = []
-
-    def walk(name, depth):
-        if depth > 8:
-            raise ValueError("include recursion")
-        for e in scan(files[name], name):
-            if e[0] == "probe":
-                res.append((e[1], e[2]))
-            else:
-                walk(e[1], depth + 1)
-    walk(main, 0)
-    return res
+    """files: {name: bytes} all in one directory.  Returns the probes in translation order: [(pid, info)], following
+    #include "..." recursively (each inclusion reads the header afresh: line 1, own name; macros stay defined).
+    info: file/phys = physical position, presfile/pres = presumed position (#line), fphys/fpres = first physical line of the
+    logical line, directive = a #line precedes in this file, via = outermost macro the token came from (None: written in
+    the file), ucn = a universal character name precedes in this file, lo/hi = extent of the statement."""
+    return Pre(files).run(main)
 
 
 # --------------------------------------------------------------------------------------------------------------
